@@ -276,7 +276,37 @@ func (s *Swarm) merge(buf []byte) (mesh.GossipData, error) {
 		}
 	})
 
-	return delta, nil
+	if delta == nil {
+		return nil, nil
+	}
+
+	return gossipData{state: other}, nil
+}
+
+// gossipData is the payload handed to the gossip library. The library coalesces payloads that are queued for a
+// connection by storing the result of Merge as the new pending payload, hence Merge must return the union of the
+// two payloads and must leave both of them (one of which may be the live state of this node) untouched.
+type gossipData struct {
+	state *event.State
+}
+
+// Encode encodes the payload for the wire.
+func (g gossipData) Encode() [][]byte {
+	return g.state.Encode()
+}
+
+// Merge returns a new payload which contains everything the two payloads contain.
+func (g gossipData) Merge(other mesh.GossipData) mesh.GossipData {
+	union := event.NewState("")
+	for _, data := range []mesh.GossipData{g, other} {
+		for _, buf := range data.Encode() {
+			if st, err := event.DecodeState(buf); err == nil {
+				union.Merge(st)
+			}
+		}
+	}
+
+	return gossipData{state: union}
 }
 
 // NumPeers returns the number of connected peers.
@@ -295,7 +325,7 @@ func (s *Swarm) NumPeers() int {
 
 // Gossip returns the state of everything we know; gets called periodically.
 func (s *Swarm) Gossip() (complete mesh.GossipData) {
-	return s.state
+	return gossipData{state: s.state}
 }
 
 // OnGossip merges received data into state and returns "everything new I've just
@@ -360,7 +390,7 @@ func (s *Swarm) Notify(ev event.Event, enabled bool) {
 	}
 
 	// Broadcasting just this operation
-	s.gossip.GossipBroadcast(op)
+	s.gossip.GossipBroadcast(gossipData{state: op})
 }
 
 // Contains checks whether an event is currently triggered within the cluster.
